@@ -12,6 +12,7 @@ import (
 	"verif/harness/obs"
 
 	"github.com/z7zmey/php-parser/pkg/conf"
+	"github.com/z7zmey/php-parser/pkg/errors"
 	"github.com/z7zmey/php-parser/pkg/parser"
 	"github.com/z7zmey/php-parser/pkg/version"
 )
@@ -68,6 +69,9 @@ func c09Inputs(p core.Params) int { return p.Pick(12000, 400000) }
 
 var c09Probe = []byte("<?php echo <<<A\n  x\n  A;\n")
 
+// c09Probes: the inputs of the acceptance grid (nil = a nil slice)
+var c09Probes = [][]byte{c09Probe, []byte(""), nil, []byte("x"), []byte("<?php"), []byte("\n"), []byte("<?php $a = ;"), []byte("#!/bin/php\n")}
+
 func init() {
 	nGrid := len(c09Seg) * len(c09Seg)
 	core.Register(&core.Check{
@@ -122,12 +126,21 @@ func c09Grid(c *core.Ctx, maj, min uint64) {
 	if verr != nil && verr != version.ErrUnsupportedVer {
 		c.Violation("version|validate|error-value", fmt.Sprintf("Validate() returned %v instead of ErrUnsupportedVer", verr), w)
 	}
-	for _, cb := range []bool{true, false} {
-		pr := obs.Parse(c09Probe, "", cb)
-		_ = pr
+	// acceptance is a matter of the version alone: the same verdict for every input, incl. the empty and the nil one
+	for pi := 0; pi < 2*len(c09Probes); pi++ {
+		cb := pi%2 == 0
+		probe := c09Probes[pi/2]
 		var r obs.ParseResult
 		cfg := conf.Config{Version: &version.Version{Major: maj, Minor: min}}
-		r.Panic = obs.Try(func() { r.Root, r.Err = parser.Parse(append([]byte(nil), c09Probe...), cfg) })
+		if cb {
+			cfg.ErrorHandlerFunc = func(*errors.Error) {}
+		}
+		var in []byte
+		if probe != nil {
+			in = append([]byte{}, probe...)
+		}
+		c.Add("grid_parse_calls", 1)
+		r.Panic = obs.Try(func() { r.Root, r.Err = parser.Parse(in, cfg) })
 		if r.Panic != nil {
 			c.Violation(r.Panic.Sig, "Parse panicked: "+r.Panic.Msg, w)
 			continue
@@ -281,6 +294,17 @@ func c09Input(c *core.Ctx, src []byte) {
 			if nodes >= 2 || base.errs != "" {
 				c.NonTrivial([]byte("in"), src)
 			}
+		}
+	}
+	// one unsupported version per input: the out-of-range error and no tree, whatever the input is
+	bad := []string{"5.7", "7.5", "8.0", "4.4", "6.0", "0.0", "7.10", "5.10", "70.4", "4294967303.4"}[int(core.Hash64(src)%10)]
+	for _, cb := range []bool{true, false} {
+		r := obs.Parse(append([]byte(nil), src...), bad, cb)
+		c.Add("unsupported_version_parses", 1)
+		if r.Panic != nil {
+			c.Violation(r.Panic.Sig, "Parse under an unsupported version panicked: "+r.Panic.Msg, core.W(src, bad))
+		} else if r.Err != parser.ErrVersionOutOfRange || !obs.IsNil(r.Root) || len(r.Errors) > 0 {
+			c.Violation("version|parse|unsupported-version-on-input", fmt.Sprintf("Parse under unsupported %s returned err=%v root-nil=%v and delivered %d errors to the callback", bad, r.Err, obs.IsNil(r.Root), len(r.Errors)), core.W(src, bad))
 		}
 	}
 	c.Add("inputs", 1)
